@@ -50,20 +50,20 @@ def run(ctx):
                        "routing: block 'ids' = every identifier form x namespace x host form x https x X-Forwarded-Host x "
                        "{UseSubdomains, InlineDNSLink, Paths, NoDNSLink}; block 'rest' = representative identifiers x remainders x "
                        "queries x port x wildcard gateway host. non-trivial = case whose expected outcome is a redirect or a "
-                       "rewritten path") % ((5, 4) if ctx.quick else (8, 6))
+                       "rewritten path") % ((6, 4) if ctx.quick else (8, 6))
     devs = ctx.open_devs()
     devset = "{" + ", ".join('"%s"' % d for d in devs) + "}"
     workers = 6 if ctx.quick else 12
     # ---- codec: M + G in one run
-    cfg = write_cfg(ctx, "MCLabelCodec.cfg.in", "gen_MCLabelCodec.cfg", MAXLEN=5 if ctx.quick else 8, GENLEN=4 if ctx.quick else 6)
+    cfg = write_cfg(ctx, "MCLabelCodec.cfg.in", "gen_MCLabelCodec.cfg", MAXLEN=6 if ctx.quick else 8, GENLEN=4 if ctx.quick else 6)
     res = ctx.tlc_mc(SPEC, "MCLabelCodec.tla", cfg, timeout=3000, deadlock=False, workers=workers)
     if not res["ok"]:
         return
     rows = parse_cases(res["out"])
     # ---- routing: M + G in one run (both blocks)
-    cfg = write_cfg(ctx, "GenGatewayHost.cfg.in", "gen_GenGatewayHost.cfg", DEVS=devset, BLOCKS='{"ids", "rest"}', LITE="TRUE" if ctx.quick else "FALSE",
+    cfg = write_cfg(ctx, "GenGatewayHost.cfg.in", "gen_GenGatewayHost.cfg", DEVS=devset, BLOCKS='{"ids", "rest"}', LITE="FALSE", RICH="FALSE" if ctx.quick else "TRUE",
                     INVS="Checks")
-    res = ctx.tlc_mc(SPEC, "GenGatewayHost.tla", cfg, timeout=3000, deadlock=False, workers=workers, coverage=not ctx.quick)
+    res = ctx.tlc_mc(SPEC, "GenGatewayHost.tla", cfg, timeout=3000, deadlock=False, workers=workers)
     if not res["ok"]:
         return
     cases = parse_cases(res["out"])
